@@ -9,13 +9,16 @@ from fractions import Fraction as F
 
 import numpy as np
 
+import py2v_viz
 from c20_util import (check_voronoi, check_voronoi_poly, clip_polygon_coords, color_ok, colorbar_clim, fr, frl, markers_data, poly_data, quadmesh_data,
                       scatter_data)
 from common import CORPUS, err_code
 
 CONFIG = {
     "cone": ["Base/ListUtil.v", "Base/MixedRadixViz.v", "Model/Store.v", "Model/Viz.v", "Proofs/VizProofs.v",
-             "Properties/C20.v"],
+             "Properties/C20.v", "Model/VizPoly.v", "Proofs/VizPolyProofs.v", "Generated/VizPolyGen.v", "Refine/VizPolyRefine.v",
+             "Properties/C20Poly.v"],
+    "extra_property_files": ["Refine/VizPolyRefine.v", "Properties/C20Poly.v"],
     "trusted": ["Model/Viz.v describes WHAT each ribs.visualize function hands to matplotlib (arrays, coordinates, offsets, "
                 "limits), not how matplotlib rasterises it; matplotlib's ScalarMappable/QuadMesh/PathCollection rendering of "
                 "(array, clim, cmap) is trusted",
@@ -30,9 +33,16 @@ CONFIG = {
                   "CVT 1-D inverse index really inverts the centroid sort for every centroid order, default colour limits are the "
                   "min/max of the stored objectives and explicit ones override, parallel axes preserve the relative position on each "
                   "axis, a permuted data frame gives the same heat map, and no plotting call changes archive or frame. The model is "
-                  "tied to ribs/visualize/*.py by a differential run against the matplotlib artists on every run.",
-    "level_note": "partial: the Voronoi regions of the 2-D CVT heat map (scipy/Qhull) and shapely clipping are NOT modelled or proved; "
-                  "the model only fixes which site gets which objective/colour value, and the harness checks on every generated case, "
+                  "tied to ribs/visualize/*.py by a differential run against the matplotlib artists on every run. "
+                  "coq/Properties/C20Poly.v: for every Voronoi diagram, every set of skipped regions and every way a clip polygon "
+                  "splits regions, the 2-D CVT heat map hands PolyCollection exactly one colour per polygon -- the colour of the "
+                  "region the polygon is a piece of, blank for an empty cell -- and each drawn region contributes exactly its pieces; "
+                  "the loop body these theorems are about is re-translated from the source on every run (harness/py2v_viz.py -> "
+                  "Generated/VizPolyGen.v, Refine/VizPolyRefine.v: gen_body = model_body).",
+    "level_note": "partial: the GEOMETRY of the Voronoi regions of the 2-D CVT heat map (scipy/Qhull) and of their pieces after shapely "
+                  "clipping is NOT modelled or proved (how many polygons and colours each region contributes, and in which order, is: "
+                  "Model/VizPoly.v); "
+                  "the model fixes which site gets which objective/colour value, and the harness checks on every generated case, "
                   "with exact arithmetic, that each drawn polygon contains exactly its own centroid, lies in that centroid's nearest-"
                   "neighbour region, that polygons cover the plot (area / sample points) and carry cmap(norm(objective)) or the blank "
                   "colour. Floating-point arithmetic of midpoints / +-0.01 margins / axis normalisation is modelled exactly over Q and "
@@ -955,6 +965,7 @@ def check(rep, tier, seed, driver):
     import matplotlib
     matplotlib.use("Agg")
     rng = random.Random(seed)
+    py2v_viz.report(rep)
     n = 700 if tier == "quick" else 7000
     rep.rule = ("random Grid (1-D/2-D, non-square dims, asymmetric ranges) / CVT (1-D/2-D, unsorted custom centroids) / "
                 "SlidingBoundaries / Proximity archives and 1..5-D archives for parallel axes, filled empty / one elite / partly / "
